@@ -65,7 +65,8 @@ void vs_plan_init(struct vs_plan *p, uint64_t seed)
     memset(p, 0, sizeof *p);
     p->rng = seed; p->frag_max = 7; p->max_consec_eagain = 3; p->fail_fd = -1;
 }
-void vs_enter(struct vs_scope *sc) { cur = *sc; cur.active = true; }
+static __thread long clock_reads;      /* clock_gettime calls inside the current scope */
+void vs_enter(struct vs_scope *sc) { cur = *sc; cur.active = true; clock_reads = 0; }
 void vs_leave(void) { cur.active = false; }
 struct vs_scope *vs_cur(void) { return &cur; }
 void vs_set_watch(bool c05, bool c08) { watch_c05 = c05; watch_c08 = c08; }
@@ -499,6 +500,15 @@ int timerfd_create(int clockid, int flags)
     int fd = real_timerfd_create(clockid, flags);
     if (fd >= 0) ledger_add(fd, VS_TIMERFD_CREATE, 0);
     return fd;
+}
+
+/* a call that keeps reading the clock is waiting for time to pass without sleeping */
+int clock_gettime(clockid_t id, struct timespec *ts)
+{
+    REAL(clock_gettime);
+    if (cur.active && watch_c05 && cur.nonblocking && ++clock_reads == 20000)
+        alarm_add("c05-spin", -1, "20000 clock reads inside one %s on a non-blocking socket: the call is busy-waiting for time to pass", cur.api);
+    return real_clock_gettime(id, ts);
 }
 
 int timerfd_settime(int fd, int flags, const struct itimerspec *nv, struct itimerspec *ov)
